@@ -157,6 +157,8 @@ class Interp:
         if k == "p_path":
             if pat["path"].split("::")[-1] == "None":
                 return v is None
+            if isinstance(v, tuple) and len(v) == 3 and v[0] == "variant":
+                return v[1] == pat["path"].split("::")[-1] and not v[2]
             raise NotPure("path pattern " + pat["path"])
         if k == "p_tstruct":
             nm = pat["path"].split("::")[-1]
@@ -164,6 +166,14 @@ class Interp:
                 if isinstance(v, tuple) and len(v) == 2 and v[0] == "some":
                     return self.match_pat(pat["elems"][0], v[1], env)
                 return False
+            if nm == "Err" and len(pat["elems"]) == 1:
+                if isinstance(v, tuple) and len(v) == 2 and v[0] == "err":
+                    return self.match_pat(pat["elems"][0], v[1], env)
+                return False
+            if isinstance(v, tuple) and len(v) == 3 and v[0] == "variant":
+                if v[1] != nm or len(v[2]) != len(pat["elems"]):
+                    return False
+                return all(self.match_pat(p, x, env) for p, x in zip(pat["elems"], v[2]))
             raise NotPure("tuple-struct pattern " + nm)
         if k == "p_tuple":
             if not isinstance(v, tuple) or len(v) != len(pat["elems"]):
@@ -237,6 +247,8 @@ class Interp:
             hook = self.extern.get("path")
             if hook is not None:
                 return hook(p)
+            if "::" in p and p.split("::")[-1][:1].isupper():
+                return ("variant", p.split("::")[-1], [])
             raise NotPure("free name " + p)
         if k == "unary":
             v = self.ev(n["e"], env, depth)
@@ -340,11 +352,16 @@ class Interp:
                     target = self.ast.fn(self.file, name, required=False)
                 except Exception:
                     target = None
-                if target is None:
+                if target is None or ("::" in f["path"] and name[:1].isupper()):
                     hook = self.extern.get("call")
                     if hook is not None:
-                        return hook(f["path"], args)
-                    raise NotPure("call to unknown function " + up(f))
+                        r = hook(f["path"], args)
+                        if r is not NotImplemented:
+                            return r
+                    if "::" in f["path"] and name[:1].isupper():
+                        return ("variant", name, args)
+                    if target is None:
+                        raise NotPure("call to unknown function " + up(f))
                 return self.call(target, args, depth + 1)
             raise NotPure("indirect call")
         if k == "mcall":
@@ -385,6 +402,26 @@ class Interp:
                     b = arm["body"]
                     return self.block(b, env2, depth) if b.k == "block" else self.ev(b, env2, depth)
             raise NotPure("no match arm applies")
+        if k == "loop":
+            while True:
+                try:
+                    self.block(n["body"], env, depth)
+                except _Break as b:
+                    return b.v
+                except _Continue:
+                    pass
+                self.steps += 1
+                if self.steps > self.max_steps:
+                    raise NotPure("step budget exceeded")
+        if k == "while" and strip(n["cond"]).k != "let_expr":
+            while self.ev(n["cond"], env, depth):
+                try:
+                    self.block(n["body"], env, depth)
+                except _Break:
+                    break
+                except _Continue:
+                    pass
+            return None
         if k == "closure":
             return ("closure", n, env)
         if k == "ref":
